@@ -103,6 +103,13 @@ pub fn run(_args: &[String]) -> i32 {
             ("parts/notes.txt".into(), "this is not a ledger (\n".into()),
             ("parts/deeper/30.ledger".into(), "2024/02/02 deeper\n    A    888 JPY\n    B\n\n".into()),
         ]),
+        ("character-class glob", vec![
+            ("main.ledger".into(), format!("{}include parts/part[12].ledger\n\ninclude parts/part[!12x].ledger\n\n{}{}{}", e[0], e[4], e[5], e[6])),
+            ("parts/part1.ledger".into(), e[1].clone()),
+            ("parts/part2.ledger".into(), e[2].clone()),
+            ("parts/part3.ledger".into(), e[3].clone()),
+            ("parts/partx.ledger".into(), "2024/02/04 not matched by the class\n    A    666 JPY\n    B\n\n".into()),
+        ]),
         ("question-mark glob and a file included from two places in a row", vec![
             ("main.ledger".into(), format!("{}include p?.ledger\n\n{}{}{}{}", e[0], e[3], e[4], e[5], e[6])),
             ("p1.ledger".into(), e[1].clone()),
